@@ -188,6 +188,30 @@ def run(ctx):
         return out
     impl, _ = ctx.diff_domain("conn", cases, oracle=oracle, nontrivial=lambda c, i: c if len(EXPECT[c][2]) >= 2 else None,
                               classify=classify, compare=compare)
+    # send_raw: the given bytes as one frame each, nothing else (pass-through negotiations: the written bytes are compared whole)
+    raw_cases, RAW = [], {}
+    for k in range(ctx.budget(24, 400)):
+        cfgf, peerf = [(connlib.LIB_DEFAULT, connlib.OTP26), (0, 0), (connlib.LIB_DEFAULT | 0x2000, connlib.OTP26 & ~0x2000)][k % 3]
+        connected = rng.random() > 0.15
+        datas = [bytes(rng.randrange(256) for _ in range(rng.choice([0, 1, 2, 5, 300, 70000]))) for _ in range(rng.choice([1, 2, 4]))]
+        case = SEP.join(["conn %d %d %d" % (cfgf, peerf, 1 if connected else 0)] + ["Q " + (d.hex() or ".") for d in datas])
+        RAW[case] = (connected, datas)
+        raw_cases.append(case)
+
+    def raw_oracle(case, impl):
+        if impl.startswith(("PANIC", "CRASH", "TIMEOUT", "connect-err")):
+            return ("violation", "did not return: " + impl[:60])
+        connected, datas = RAW[case]
+        outs = impl.split(SEP)
+        wrote = bytes.fromhex(outs[-1][6:].replace(".", ""))
+        if not connected:
+            return None if all(o == "err state" for o in outs[:-1]) and not wrote else ("violation", "send_raw on a connection that is not connected did not fail cleanly")
+        want = b"".join(connlib.frame(d) for d in datas)
+        if any(o != "ok" for o in outs[:-1]) or wrote != want:
+            return ("violation", "send_raw did not write exactly one frame with the given bytes per call")
+        return None
+    ctx.diff_domain("conn", raw_cases, oracle=raw_oracle, nontrivial=lambda c, i: c if len(RAW[c][1]) >= 2 else None,
+                    classify=lambda c, i: ["api:send_raw", "mode:" + ("raw" if RAW[c][0] else "unconnected")])
     # concurrent senders through one node: frames of different tasks never interleave, each task's frames arrive in
     # the order it issued them (the theorem for every schedule is Conc/Interleave.v; this samples the scheduler's)
     bursts = [SEP.join(["node 1", "spawn", "burst %d %d %d" % (k, n, size), "wrote"])
